@@ -541,6 +541,81 @@ theorem src_tie_parse_timestamp_pattern (s t : List UInt8) (i : Nat) (hi : i ≤
   ⟨(SrcTie.Ts.src_tie_parse_timestamp_pattern_main s t i hi).1, (SrcTie.Ts.src_tie_parse_timestamp_pattern_main s t i hi).2,
    SrcTie.Ts.parseTimestamp_of_not_pattern _⟩
 
+/-! #### the integer attribute parsers (osm/types_from_string.hpp): `detail::string_to_ulong` and `string_to_object_id` call
+     `strtoul` / `strtoll` / `isspace` and read `errno` / `char* end` (external: outside the translated subset, modelled by the
+     libc contracts `strtoul`, `strtoll`, `strtollErange` of Model/Conv.lean and checked against the real libc by the
+     correspondence streams).  What IS translated: every conjunct in front of the last one of their conditions.  The model
+     functions `stringToUlong` / `stringToObjectId` take the string and NOTHING else — no errno, no earlier call —: "the result
+     is determined by the string" holds for the model by construction, for the implementation it is checked along call
+     sequences with a preset errno (stream `call-sequences` of tools/props/c13.py), and a new conjunct in front of the
+     acceptance test of `string_to_ulong` (such as `errno != ERANGE &&` without a preceding `errno = 0`, seed C13-8) changes the
+     generated `string_to_ulong_cond_range` (or is refused by the translator) and breaks the ties below. -/
+
+/-- the range conjunct of the acceptance test of `string_to_ulong` (`value < std::numeric_limits<uint32_t>::max()`, everything
+    in front of `*end == '\0'`) = the model's `value < 4294967295`, for every `unsigned long` value: it depends on the
+    value `strtoul` returned and on nothing else -/
+theorem src_tie_string_to_ulong_cond_range (value : Nat) :
+    Src.TypesFromString.string_to_ulong_cond_range (value : Int) = decide (value < 4294967295) ∧
+    Src.TypesFromString.string_to_ulong_cond_range_defined (value : Int) = true := by
+  constructor
+  · unfold Src.TypesFromString.string_to_ulong_cond_range
+    rw [Bool.eq_iff_iff]
+    simp only [CxxSem.lt_iff, decide_eq_true_eq]
+    omega
+  · rfl
+
+/-- the first test of `string_to_ulong` without its `isspace` conjunct (`*input != '\0' && *input != '-'`) = the model's test,
+    for every NUL-terminated string; no read outside the array -/
+theorem src_tie_string_to_ulong_cond_start (s t : List UInt8) (i : Nat) (hi : i ≤ s.length) :
+    Src.TypesFromString.string_to_ulong_cond_start (s ++ 0 :: t) (i : Int) = (peek (s.drop i) != 0 && peek (s.drop i) != cMinus) ∧
+    Src.TypesFromString.string_to_ulong_cond_start_defined (s ++ 0 :: t) (i : Int) = true := by
+  have hrd := Cursor.rdS_cbuf s t i hi
+  have hin := Cursor.inB_cbuf s t i hi
+  have hsc := Cursor.sc_cases (peek (s.drop i))
+  have e45 : cMinus.toNat = 45 := rfl
+  constructor
+  · unfold Src.TypesFromString.string_to_ulong_cond_start
+    simp only [hrd]
+    rw [Bool.eq_iff_iff]
+    simp only [Bool.and_eq_true, CxxSem.ne_iff, bne, Cursor.beq_char, Bool.not_eq_true', decide_eq_false_iff_not, Cursor.zero_toNat, e45]
+    omega
+  · unfold Src.TypesFromString.string_to_ulong_cond_start_defined
+    simp only [hrd, hin, Bool.or_true, Bool.and_true]
+
+/-- the first test of `string_to_object_id` without its `isspace` conjunct (`*input != '\0'`) = the model's test -/
+theorem src_tie_string_to_object_id_cond_start (s t : List UInt8) (i : Nat) (hi : i ≤ s.length) :
+    Src.TypesFromString.string_to_object_id_cond_start (s ++ 0 :: t) (i : Int) = (peek (s.drop i) != 0) ∧
+    Src.TypesFromString.string_to_object_id_cond_start_defined (s ++ 0 :: t) (i : Int) = true := by
+  have hrd := Cursor.rdS_cbuf s t i hi
+  have hin := Cursor.inB_cbuf s t i hi
+  have hsc := Cursor.sc_cases (peek (s.drop i))
+  constructor
+  · unfold Src.TypesFromString.string_to_object_id_cond_start
+    simp only [hrd]
+    rw [Bool.eq_iff_iff]
+    simp only [CxxSem.ne_iff, bne, Cursor.beq_char, Bool.not_eq_true', decide_eq_false_iff_not, Cursor.zero_toNat]
+    omega
+  · unfold Src.TypesFromString.string_to_object_id_cond_start_defined
+    exact hin
+
+/-- `string_to_ulong` (the model) is the composition of the TRANSLATED conditions, the `isspace` test, the "-1" special case and
+    the contract of `strtoul` — a function of the string alone: the acceptance decision is `cond_range (strtoul s).value &&
+    *end == '\0'` with nothing in front of it -/
+theorem src_tie_string_to_ulong_accept (s t : List UInt8) :
+    stringToUlong s =
+      if (match s with | a :: b :: r => a == cMinus && b == 49 && peek r == 0 | _ => false) then .ok 0
+      else if Src.TypesFromString.string_to_ulong_cond_start (s ++ 0 :: t) 0 && !isSpace (peek s) then
+        if Src.TypesFromString.string_to_ulong_cond_range ((strtoul s).1 : Int) && peek (strtoul s).2 == 0 then .ok (strtoul s).1
+        else .error .rangeError
+      else .error .rangeError := by
+  have h1 := (src_tie_string_to_ulong_cond_start s t 0 (Nat.zero_le _)).1
+  have h2 := (src_tie_string_to_ulong_cond_range (strtoul s).1).1
+  have e0 : ((0 : Nat) : Int) = 0 := rfl
+  simp only [List.drop_zero, e0] at h1
+  rw [h1, h2]
+  unfold stringToUlong
+  rfl
+
 end SrcTies
 
 end Osmium.Conv.C13
